@@ -90,7 +90,10 @@ func generate(w *mon.W) {
 			// the key column defined anew with the order of its values reversed
 			"rebind": func() *Op { return &Op{K: "project", Cols: []Col{{Name: id("id"), X: Bin("-", Num("0"), Name("id"))}}} },
 		}
-		names := []string{"take0", "take1", "take9", "top0", "top1", "count", "sumall", "sumby", "never", "always", "sort", "proj", "rebind"}
+		// the distinct values of a nullable key (no aggregates): the NULL group is a group
+		mk["keys"] = func() *Op { return &Op{K: "summarize", HasBy: true, By: []Col{{X: Name("k")}}} }
+		needsID := map[string]bool{"top0": true, "top1": true, "sumby": true, "never": true, "always": true, "sort": true, "proj": true, "rebind": true}
+		names := []string{"take0", "take1", "take9", "top0", "top1", "count", "sumall", "sumby", "never", "always", "sort", "proj", "rebind", "keys"}
 		var brec func(seq []string)
 		brec = func(seq []string) {
 			if w.Stopped() {
@@ -99,14 +102,21 @@ func generate(w *mon.W) {
 			if len(seq) > 0 {
 				p := &Pipe{Table: Ident{Name: "T"}}
 				ok := true
-				hasID := true
+				hasID, hasK := true, true
 				for _, n := range seq {
-					if !hasID {
+					if !hasID && needsID[n] || !hasK && n == "keys" {
 						ok = false // after count the only column is count(): operators over id have no meaning
 					}
+					switch n {
+					case "proj", "rebind", "sumall", "sumby", "count", "keys":
+						hasK = false
+					}
 					p.Ops = append(p.Ops, mk[n]())
-					if n == "count" {
+					if n == "count" || n == "keys" {
 						hasID = false
+					}
+					if n == "sumall" {
+						hasID = true // its one column is called id
 					}
 				}
 				if ok {
